@@ -10,6 +10,14 @@ BASELINE_OFF = ("cd /repo && env -u PYOPENAPI_GEN_VERIF /venv/bin/python -m pyte
 
 # id -> (category, technique, level text, level note, design ref)
 CHECKS = {
+    "C15": ("exploration", "runtime monitoring: position x payload matrix through the real generator with AST-skeleton differential and literal read-back oracles",
+            "21 text-bearing positions x 24 hostile payloads (quotes, triple quotes, backslash / escape-like sequences, LF, CR, CRLF, tab, braces, #, %s, NUL, non-ASCII, "
+            "would-be injection) plus random Unicode strings are placed into a fixed document and generated for real; every emitted file must parse; its AST skeleton "
+            "(node types and arity, constants and identifier spellings blanked, class/module bodies and dict displays as multisets) must equal the skeleton obtained with "
+            "benign text in the same position; meaning-carrying literals (enum value, wire key, query/header name, string default, discriminator value) must appear as "
+            "exactly the original string constant.",
+            "One base document; positions listed in the rule; skeleton comparison cannot see changes that keep node structure.",
+            "DESIGN.md §4 C15"),
     "C10": ("fault_enumeration", "runtime monitoring with fault injection: audit-hook file-system event log with an online containment policy and safety fence, before/after snapshots, stage / LINE-failpoint / ENOSPC faults",
             "For 3 layouts x existing tree {equal, different, partially present} x force {off, on}: a fault-free run, every generation stage (load, parse, six emitters, "
             "post-processing, diff) failing at entry and at exit, OSError(ENOSPC) at the k-th write for every k, and a sys.monitoring LINE failpoint at the statements "
